@@ -168,7 +168,7 @@ def valid_modules(rng, ngen):
     for name, text in texts.sample_files():
         out.append((name, name.replace('/', '.')[:-4], text))
     for i in range(ngen):
-        p = progs.gen_program(rng.fork(), {'two_modules': False})
+        p = progs.gen_infer_program(rng.fork()) if i % 6 == 5 else progs.gen_order_program(rng.fork()) if i % 6 == 3 else progs.gen_program(rng.fork(), {'two_modules': False})
         out.append(('gen-%d' % i, 'Main', p['sources']['Main']))
     return out
 
